@@ -278,6 +278,8 @@ class BaseReader:
 
     def _read_data(self, offset, n, /, use_dask=False, **kwargs):
         """Read n samples from current read position into array-like."""
+        # ``chunks`` is for the dask array built here, not for the reading hook.
+        chunks = kwargs.pop("chunks", None)
         if use_dask:
             import dask
             import dask.array as da
@@ -290,7 +292,7 @@ class BaseReader:
 
             # "auto" chunking is undefined (division by zero in dask) for an empty array
             default_chunks = (-1,) + ("auto" if n else -1,) * len(self.sample_shape)
-            z = z.rechunk(kwargs.get("chunks", default_chunks))
+            z = z.rechunk(default_chunks if chunks is None else chunks)
         else:
             z = self._read_array(offset, n, **kwargs)
 
